@@ -95,6 +95,9 @@ MUTS = {
     "M88b_space_width_fixed": ("write_font.py", "    space.width = config.width\n", "    space.width = 1275\n", ["C20"]),
     "M88c_version_minor_not_padded": ("write_font.py", "    ufo.info.versionMinor = config.version_minor\n", "    ufo.info.versionMinor = config.version_minor * 10 if config.version_minor < 100 else config.version_minor\n", ["C20"]),
     "M88d_F13_reverted": ("nanoemoji.py", "        if dest in picosvg_builds:\n            continue\n        picosvg_builds.add(dest)\n", "        if svg_file in picosvg_builds:\n            continue\n        picosvg_builds.add(svg_file)\n", ["C20"]),
+    "M80_axis_minimum_is_default": ("write_variable_font.py", "            minimum=min(\n                p.position\n                for m in font_config.masters\n                for p in m.position\n                if p.axisTag == a.axisTag\n            ),", "            minimum=a.default,", ["C18"]),
+    "M79_master_locations_shuffled": ("write_variable_font.py", "        location = {axis_names[p.axisTag]: p.position for p in master.position}\n", "        location = {axis_names[p.axisTag]: sorted(q.position for mm in font_config.masters for q in mm.position)[list(font_config.masters).index(master)] if len(font_config.masters) > 2 else p.position for p in master.position}\n", ["C18"]),
+    "M81_default_master_position_as_given": ("write_variable_font.py", "            default=a.default,\n", "            default=font_config.masters[0].position[0].position,\n", ["C18"]),
     "M68_unindexed_popleft": ("colors.py", "            result[i] = cpal_colors.pop()\n", "            result[i] = cpal_colors.popleft() if cpal_colors[0].palette_index is None else cpal_colors.pop()\n", ["C15"]),
     "M69_slots_len_only": ("colors.py", "    cpal_slots = max(len(all_colors), max(indexed_colors, default=-1) + 1)", "    cpal_slots = max(len(all_colors), len(indexed_colors))", ["C15"]),
     "M70_conflict_by_rgb_only": ("colors.py", "            if color.palette_index in indexed_colors:\n", "            if color.palette_index in indexed_colors and indexed_colors[color.palette_index][:3] != color[:3]:\n", ["C15"]),
